@@ -8,7 +8,8 @@ A *scenario* is a JSON-able dict describing one complete use of a miasm jitter:
      "options": {"jit_maxline": 50, "max_exec_per_call": 0},     # jitter.jit.set_options
      "block_max": None | int,               # JitCore.jitted_block_max_size used for this jitter
      "log_mn": False,                       # jitter.jit.log_mn: executed-instruction trace, captured at fd level
-     "exec_cb": False,                      # record jitter.pc at every runiter_once (exec_cb hook)
+     "exec_cb": False | True | "regs" | "retranslate",   # exec_cb hook: record jitter.pc (and get_gpreg()) at every
+                                            # runiter_once / or call jit.clear_jitted_blocks() there (no event)
      "purge_disk_cache": False,             # empty $TMPDIR/miasm_cache first (gcc backend)
      "script": [op, ...]}
 
@@ -26,8 +27,11 @@ Script ops (lists), executed in order inside the worker:
     ["clear_exc"]                 vm.set_exception(0); cpu.set_exception(0)
     ["set_options", {...}]        jitter.jit.set_options(**...)
     ["clear_cache"]               jitter.jit.clear_jitted_blocks()
-    ["reset"]                     registers and page contents back to the scenario's initial values
+    ["reset"]                     registers and non-code page contents back to the scenario's initial values
+                                  (["reset", "all"]: code pages too)
+    ["set_u", bits, addr, value]  jitter.vm.set_u8/16/32/64
     ["snap", label]               -> event "snap" with the full observable state
+    ["disasm", addr]              -> event ["disasm", addr, text] (naming a culprit instruction in a bucket key)
 Breakpoint callback spec (dict): "ret": "true" (default) | "false" | "none" | any int/str returned as is;
     "stop": true -> jitter.running = False (the sentinel idiom of miasm's own tests);
     "ret_at": {"<k>": value}  value returned on the k-th hit (1-based) instead of "ret";
@@ -249,6 +253,8 @@ def call_setup(arch, code_addr, args, sentinel, stack_base, stack_size):
     elif arch == "x86_16":
         sp = top - 2
         poke(sp, sentinel, 2)
+        for r, a in zip(("AX", "CX", "DX", "BX"), args):
+            regs[r] = a
         regs["SP"] = sp
     elif arch in ("arml", "armb", "armtl"):
         for i, a in enumerate(args):
@@ -287,18 +293,20 @@ def call_setup(arch, code_addr, args, sentinel, stack_base, stack_size):
     return regs, bytes(stack)
 
 
-def call_scenario(arch, code, args, data_pages, code_addr=None, **kw):
+def call_scenario(arch, code, args, data_pages, code_addr=None, entry=None, **kw):
     """Scenario calling `code` (a function) with integer args; data_pages: list of [addr, access, bytes, name].
-    The return address is the sentinel, which carries a stop breakpoint (id "S")."""
+    The return address is the sentinel, which carries a stop breakpoint (id "S").  code_addr: where the bytes are
+    mapped; entry: first executed address (default code_addr)."""
     lay = layout(arch)
     code_addr = lay["code"] if code_addr is None else code_addr
-    regs, stack = call_setup(arch, code_addr, args, lay["sentinel"], lay["stack"], lay["stack_size"])
+    entry = code_addr if entry is None else entry
+    regs, stack = call_setup(arch, entry, args, lay["sentinel"], lay["stack"], lay["stack_size"])
     pages = [[code_addr, PAGE_READ | PAGE_WRITE, bytes(code).hex(), "code"],
              [lay["stack"], PAGE_READ | PAGE_WRITE, stack.hex(), "stack"]]
     for addr, access, data, name in data_pages:
         pages.append([addr, access, bytes(data).hex(), name])
     scn = {"arch": arch, "pages": pages, "regs": regs,
-           "script": [["bp", "S", lay["sentinel"], {"ret": "false", "stop": True}], ["run", code_addr]]}
+           "script": [["bp", "S", lay["sentinel"], {"ret": "false", "stop": True}], ["run", entry]]}
     scn.update(kw)
     return scn
 
@@ -306,6 +314,109 @@ def call_scenario(arch, code, args, data_pages, code_addr=None, **kw):
 RET_REG = {"x86_32": "RAX", "x86_64": "RAX", "x86_16": "RAX", "arml": "R0", "armb": "R0", "armtl": "R0",
            "aarch64l": "X0", "aarch64b": "X0", "mips32l": "V0", "mips32b": "V0", "ppc32b": "R3", "msp430": "R12",
            "mepl": "R0", "mepb": "R0"}
+
+
+# =================================================================================================
+# template programs: assembled with miasm's own assembler (harness side; a failure to assemble = dropped program)
+
+def assemble(arch, text, addr):
+    """text with a `main:` label pinned at addr -> (bytes, {label: address}); the bytes start at labels["__base__"]
+    (the assembler may place other blocks before main)"""
+    from miasm.analysis.machine import Machine
+    from miasm.core import parse_asm, asmblock
+    from miasm.core.locationdb import LocationDB
+    m = Machine(arch)
+    loc_db = LocationDB()
+    asmcfg = parse_asm.parse_txt(m.mn, m.dis_engine.attrib, text, loc_db)
+    loc_db.set_location_offset(loc_db.get_name_location("main"), addr)
+    patches = asmblock.asm_resolve_final(m.mn, asmcfg)
+    lo = min(patches)
+    hi = max(o + len(b) for o, b in patches.items())
+    buf = bytearray(hi - lo)
+    for o, b in patches.items():
+        buf[o - lo:o - lo + len(b)] = b
+    labels = {}
+    for name in loc_db.names:
+        off = loc_db.get_location_offset(loc_db.get_name_location(name))
+        labels[name if isinstance(name, str) else name.decode()] = off
+    labels["__base__"] = lo
+    return bytes(buf), labels
+
+
+def asm_mep(lines, addr, little=True):
+    """MeP: miasm's block assembler does not support the architecture, so instructions are assembled one by one
+    (big-endian form, the only one mn_mep.asm encodes under Python 3) and laid out here.  `@label` in an operand
+    is replaced by the branch displacement.  Each encoding is checked to disassemble back to the same text.
+    -> (bytes, {label: address}, [instruction addresses])"""
+    import warnings
+    with warnings.catch_warnings():
+        warnings.simplefilter("ignore")
+        from miasm.arch.mep.arch import mn_mep
+    from miasm.core.locationdb import LocationDB
+    loc_db = LocationDB()
+    items = []
+    for ln in lines:
+        ln = ln.strip()
+        if not ln:
+            continue
+        if ln.endswith(":"):
+            items.append(("label", ln[:-1]))
+        else:
+            items.append(("ins", ln))
+
+    def enc(text):
+        ins = mn_mep.fromstring(text, loc_db, "b")
+        ins.mode = "b"
+        want = str(ins)
+        for cand in mn_mep.asm(ins):
+            try:
+                back = mn_mep.dis(cand, "b")
+            except Exception:
+                continue
+            if str(back) == want and back.l == len(cand):
+                return cand
+        raise ValueError("cannot assemble %r faithfully" % text)
+    sizes = {}
+    for _round in range(6):
+        labels = {}
+        pos = addr
+        n = 0
+        for kind, v in items:
+            if kind == "label":
+                labels[v] = pos
+            else:
+                pos += sizes.get(n, 2)
+                n += 1
+        out = []
+        pos = addr
+        n = 0
+        changed = False
+        offs = []
+        for kind, v in items:
+            if kind == "label":
+                continue
+            text = v
+            if "@" in text:
+                name = text[text.index("@") + 1:].split()[0].rstrip(",)")
+                disp = labels[name] - pos
+                text = text.replace("@" + name, ("-0x%x" % -disp) if disp < 0 else ("0x%x" % disp))
+            b = enc(text)
+            if sizes.get(n, 2) != len(b):
+                sizes[n] = len(b)
+                changed = True
+            offs.append(pos)
+            out.append(b)
+            pos += len(b)
+            n += 1
+        if not changed:
+            code = b"".join(out)
+            if little:
+                sw = bytearray(code)
+                for i in range(0, len(sw) - 1, 2):
+                    sw[i], sw[i + 1] = code[i + 1], code[i]
+                code = bytes(sw)
+            return code, labels, offs
+    raise ValueError("layout does not converge")
 
 
 # =================================================================================================
@@ -472,8 +583,18 @@ class Worker(object):
         if self.log_mn:
             jitter.jit.log_mn = True
         if scn.get("exec_cb"):
+            with_regs = scn["exec_cb"] == "regs"
+
+            retrans = scn["exec_cb"] == "retranslate"
+
             def ecb(jj):
-                self.events.append(["ecb", jj.pc])
+                if retrans:
+                    jj.jit.clear_jitted_blocks()
+                    return True
+                if with_regs:
+                    self.events.append(["ecb", jj.pc, {k: int(v) for k, v in jj.cpu.get_gpreg().items()}])
+                else:
+                    self.events.append(["ecb", jj.pc])
                 return True
             jitter.exec_cb = ecb
         for op in scn["script"]:
@@ -555,6 +676,8 @@ class Worker(object):
             j.vm.set_mem(op[1], bytes.fromhex(op[2]))
         elif name == "set_reg":
             setattr(j.cpu, op[1], op[2])
+        elif name == "set_u":
+            getattr(j.vm, "set_u%d" % op[1])(op[2], op[3])
         elif name == "add_page":
             j.vm.add_memory_page(op[1], op[2], bytes.fromhex(op[3]), op[4] if len(op) > 4 else "")
         elif name == "rm_page":
@@ -570,11 +693,19 @@ class Worker(object):
             j.jit.clear_jitted_blocks()
         elif name == "reset":
             for addr, access, hexdata, _name in self.scn["pages"]:
+                if _name == "code" and not (len(op) > 1 and op[1] == "all"):
+                    continue        # rewriting code would (legitimately) invalidate its translations
                 j.vm.set_mem(addr, bytes.fromhex(hexdata))
             for k, v in self.scn.get("regs", {}).items():
                 setattr(j.cpu, k, v)
         elif name == "snap":
             self.events.append(["snap", op[1], self.snap()])
+        elif name == "disasm":
+            try:
+                txt = str(j.jit.mdis.dis_instr(op[1]))
+            except Exception as e:
+                txt = "?%s" % type(e).__name__
+            self.events.append(["disasm", op[1], txt])
         else:
             raise ValueError("unknown op %r" % (op,))
 
@@ -602,3 +733,194 @@ class Worker(object):
 if __name__ == "__main__":
     if len(sys.argv) > 1 and sys.argv[1] == "--worker":
         _worker_main()
+
+
+# =================================================================================================
+# hand-written template programs for architectures clang cannot target (x86_16, MeP)
+# registers on entry: x86_16: AX=a CX=b DX=c BX=arr ; MeP: R1=a R2=b R3=c R4=arr
+
+X86_16_TEMPLATES = [
+    ("t16_loop_store", """
+main:
+    MOV SI, 8
+loop:
+    ADD AX, CX
+    MOV WORD PTR [BX], AX
+    ADD BX, 2
+    XOR AX, DX
+    DEC SI
+    JNZ loop
+    RET
+"""),
+    ("t16_load_cond", """
+main:
+    MOV SI, BX
+    LEA BP, WORD PTR [BX+16]
+    XOR DI, DI
+l0:
+    MOV AX, WORD PTR [SI]
+    TEST AX, 1
+    JZ even
+    ADD DI, AX
+    JMP next
+even:
+    SUB DI, CX
+    MOV WORD PTR [SI], DI
+next:
+    ADD SI, 2
+    CMP SI, BP
+    JNZ l0
+    MOV AX, DI
+    RET
+"""),
+    ("t16_call_stack", """
+main:
+    MOV SI, AX
+    CALL sub
+    MOV WORD PTR [BX+4], AX
+    ADD AX, SI
+    RET
+sub:
+    MOV AX, CX
+    SHL AX, 3
+    ADD AX, DX
+    MOV BYTE PTR [BX+1], AL
+    RET
+"""),
+    ("t16_string", """
+main:
+    MOV SI, BX
+    LEA DI, WORD PTR [BX+8]
+    MOV CX, 4
+    CLD
+    REP MOVSW
+    MOV AX, WORD PTR [BX+10]
+    RET
+"""),
+    ("t16_muldiv", """
+main:
+    MUL CX
+    MOV WORD PTR [BX], AX
+    MOV WORD PTR [BX+2], DX
+    OR CX, 1
+    XOR DX, DX
+    DIV CX
+    MOV WORD PTR [BX+4], AX
+    MOV WORD PTR [BX+6], DX
+    RET
+"""),
+    ("t16_flags", """
+main:
+    CMP AX, CX
+    JB below
+    SUB AX, CX
+    JMP st
+below:
+    ADC AX, DX
+st:
+    RCL AX, 1
+    SBB DX, AX
+    MOV WORD PTR [BX+14], DX
+    SAR AX, 2
+    MOV WORD PTR [BX+12], AX
+    RET
+"""),
+]
+
+MEP_TEMPLATES = [
+    ("mep_loop_store", """
+    MOV R5, 8
+loop:
+    ADD3 R1, R1, R2
+    SW R1, (R4)
+    ADD R4, 4
+    XOR R1, R3
+    ADD R5, -1
+    BNEZ R5, @loop
+    MOV R0, R1
+    RET
+"""),
+    ("mep_load_cond", """
+    MOV R0, 0
+    MOV R5, 8
+l0:
+    LW R6, (R4)
+    MOV R7, 1
+    AND R7, R6
+    BEQZ R7, @even
+    ADD3 R0, R0, R6
+    BRA @next
+even:
+    SUB R0, R2
+    SW R0, (R4)
+next:
+    ADD R4, 4
+    ADD R5, -1
+    BNEZ R5, @l0
+    RET
+"""),
+    ("mep_subword", """
+    SB R1, 0x1(R4)
+    SH R2, 0x2(R4)
+    LB R5, (R4)
+    LBU R6, 0x5(R4)
+    LH R7, 0x6(R4)
+    ADD3 R0, R5, R6
+    ADD3 R0, R0, R7
+    SW R0, 0x8(R4)
+    RET
+"""),
+    ("mep_cmp_shift", """
+    SLT3 R0, R1, R2
+    BEQZ R0, @ge
+    SLL R1, 3
+    BRA @st
+ge:
+    SRL R1, 2
+st:
+    SLTU3 R0, R2, R3
+    ADD3 R1, R1, R0
+    SRA R3, 1
+    SW R1, 0xC(R4)
+    SW R3, 0x10(R4)
+    MOV R0, R1
+    RET
+"""),
+    ("mep_nested", """
+    MOV R5, 3
+outer:
+    MOV R6, 2
+inner:
+    LW R7, (R4)
+    ADD3 R1, R1, R7
+    SW R1, 0x4(R4)
+    ADD R6, -1
+    BNEZ R6, @inner
+    ADD R4, 4
+    ADD R5, -1
+    BNEZ R5, @outer
+    MOV R0, R1
+    RET
+"""),
+]
+
+
+def template_programs(arch, addr=None):
+    """-> list of dict(tag, code, labels, instr_addrs|None); failures to assemble are returned with code=None"""
+    addr = layout(arch)["code"] if addr is None else addr
+    out = []
+    if arch == "x86_16":
+        for name, text in X86_16_TEMPLATES:
+            try:
+                code, labels = assemble(arch, text, addr)
+                out.append(dict(tag=name, code=code, labels=labels, src=text, base=labels["__base__"], entry=addr))
+            except Exception as e:
+                out.append(dict(tag=name, code=None, reason="asm:%s" % type(e).__name__, src=text))
+    elif arch in ("mepl", "mepb"):
+        for name, text in MEP_TEMPLATES:
+            try:
+                code, labels, offs = asm_mep(text.split("\n"), addr, little=(arch == "mepl"))
+                out.append(dict(tag=name, code=code, labels=labels, src=text, base=addr, entry=addr))
+            except Exception as e:
+                out.append(dict(tag=name, code=None, reason="asm:%s:%s" % (type(e).__name__, str(e)[:80]), src=text))
+    return out
